@@ -39,24 +39,20 @@ Fixpoint first_usable_hit (mvals : row) (sm : list (ispec * idx1)) : option (gse
   match sm with
   | [] => None
   | (s, m) :: sm' =>
-      if usable s mvals then
-        match m !! K T s mvals with
-        | Some us => Some us
-        | None => first_usable_hit mvals sm'
-        end
+      if usable s mvals then m !! K T s mvals     (* the first usable index decides *)
       else first_usable_hit mvals sm'
   end.
 
 (** RowCache.rowsByModels (client indexes allowed), one model at a time into
-    the accumulated result map: by UUID when the model has one and the row
-    exists; otherwise through the first index that is usable for the model
-    and has an entry for the model's value *)
+    the accumulated result map: by UUID when the model has one (nothing when no
+    such row is cached); otherwise through the first index that is usable for
+    the model, whether it has an entry for the model's value or not *)
 Definition rbm_step (c : rc) (acc : gset sym) (m : option sym * row) : gset sym :=
   let by_index := default ∅ (first_usable_hit m.2 (zip specs (rc_idx c))) in
   match m.1 with
   | Some u =>
       if bool_decide (is_Some (rc_rows c !! u)) then acc ∪ {[u]}
-      else acc ∪ by_index
+      else acc     (* a uuid stands for that row and for no other *)
   | None => acc ∪ by_index
   end.
 
